@@ -27,7 +27,8 @@ impl TokenSet {
     }
 
     pub(crate) const fn contains(&self, kind: SyntaxKind) -> bool {
-        self.0 & mask(kind) != 0
+        // Kinds that do not fit in the 128-bit set (e.g. `VERSION_STRING`) are never members.
+        (kind as usize) < 128 && self.0 & mask(kind) != 0
     }
 }
 
